@@ -10,6 +10,7 @@ import QuiverModel.Lemmas.Packaging.Reach
 import QuiverModel.Core.Packaging.Merge
 import QuiverModel.Lemmas.Packaging.MergeImport
 import QuiverModel.Lemmas.Packaging.MergeFrame
+import QuiverModel.Lemmas.Packaging.MergeLoops
 /-
 C10 — packaging steps preserve behaviour (property theorems).
 
@@ -827,5 +828,30 @@ theorem merge_isRenaming_types_tuples {env src : Prog} {e : Nat} {out : MergeOut
 theorem merge_never_disturbs_loaded_programs {env src : Prog} {e : Nat} {out : MergeOut}
     (h : mergeBytecode env src e = some out) : ProgLe5 env out.prog :=
   merge_extends_env h
+
+/-- **`merge_isRenaming_partial`: every IMAGE clause of `MergeIsRenamingStatement`**, for every environment and every
+    well-formed incoming program (`SrcWf`: operands inside the program's own tables, functions refer to earlier
+    functions only, no `Process` literal — what `remap_function`'s `.unwrap_or(idx)` silently relies on) on which
+    `merge_bytecode` succeeds without re-binding a memo key (`hk`, decided per merge by the driver):
+    * the entry is mapped to the reported entry; every source function id is mapped;
+    * `fns`: the merged function is the source function renamed instruction by instruction through the FINAL tables,
+      same captures, type id renamed;
+    * `consts`, `types`, `tuples` (`merge_isRenaming_types_tuples`): the image entry is the renamed source entry;
+    * `builtins`: the image has the same NAME (`register_builtin_info` lets a loaded builtin of that name win).
+    NOT proved (validated per instance by `validateB` on every merge of the run): injectivity of the five maps
+    (from duplicate-freeness of the source tables, by induction along the reference order), NIL / OK fixed, and the
+    parameter / result types of a builtin that was already loaded. -/
+theorem merge_isRenaming_partial {env src : Prog} {e : Nat} {out : MergeOut}
+    (h : mergeBytecode env src e = some out) (hw : SrcWf src)
+    (hk : (out.ren.type.map (·.1)).Nodup ∧ (out.ren.tuple.map (·.1)).Nodup) :
+    out.ren.fn.get e = some out.entry ∧
+    (∀ f f', out.ren.fn.get f = some f' → ∃ F F', src.fns[f]? = some F ∧ out.prog.fns[f']? = some F' ∧
+      F'.captures = F.captures ∧ renameInstrs out.ren F.instrs = some F'.instrs ∧
+      out.ren.type.get F.typeId = some F'.typeId) ∧
+    (∀ c c', out.ren.const.get c = some c' → ∃ k, src.consts[c]? = some k ∧ out.prog.consts[c']? = some k) ∧
+    (∀ b b', out.ren.builtin.get b = some b' → ∃ B B', src.builtins[b]? = some B ∧ out.prog.builtins[b']? = some B' ∧
+      B'.name = B.name) ∧
+    (∀ f, f < src.fns.size → ∃ f', out.ren.fn.get f = some f') :=
+  merge_image_clauses h hw hk
 
 end C10
